@@ -865,11 +865,18 @@ def keyword_whole_identifier(run, R="TAB-op"):
     if f is None:
         return
     scans = [bi for bi, t in f.calls() if (t.get("resolved") or t.get("callee") or "").endswith("CharWalker::<'_>::consume_while") or (t.get("resolved") or t.get("callee") or "").endswith("::consume_while")]
+    # helpers of the tokenizer that consult the table (directly or in a closure)
+    table_readers = set()
+    for g in run.prog.real_fns():
+        if g.id.startswith("syntax::token::") and "KEYWORDS" in json.dumps(g.raw.get("blocks")):
+            table_readers.add(g.raw.get("root") or g.id)
     uses = []
     for b in sorted(f.reachable()):
         blk = f.blocks[b]
         txt = json.dumps(blk["stmts"]) + json.dumps(blk["term"].get("args") if blk["term"]["k"] == "call" else "")
         if "KEYWORDS" in txt:
+            uses.append(b)
+        elif blk["term"]["k"] == "call" and (blk["term"].get("resolved") or "") in table_readers and (blk["term"].get("resolved") or "") != f.id:
             uses.append(b)
     ok = bool(scans) and bool(uses) and all(any(f.dominates(s_, u) and s_ != u for s_ in scans) for u in uses)
     run.check(ok, R, R + "|keyword|whole-identifier", f.loc(), "the keyword table is consulted only after the whole identifier was scanned (%d use(s))" % len(uses),
